@@ -18,7 +18,7 @@ SNIPPETS = ['#[inline]', '#[precedence(level="1")]', '#[precedence(level="0")]',
             '#[precedence(level="x")]', '#[precedence]', '#[assoc]', '#[cfg(feature = "a")]', '#[cfg(not(feature = "a"))]', '#[cfg()]', '#[LALR]', '#[recursive_ascent]',
             'pub', 'match', 'else', 'extern', 'enum', 'type', 'if', '==', '!=', '~~', '!~', '<>', '@L', '@R', '!', '?', '*', '+', '=>', '=>?', '=>@L', '=>@R',
             '<', '>', '(', ')', '{', '}', '[', ']', ',', ';', ':', '::', "'a", '&', 'dyn', 'r"a*"', 'r"("', 'r"\\p{Greek}"', 'r"(?=a)"', '"a"', '""', '_',
-            'grammar;', 'grammar(x: u32);', 'grammar<T>;', 'use std::str::FromStr;', 'Vec<<>>', 'Comma<T>', 'Foo<"a", "b">', '"a" => "b"', 'r"[" => ID', '=> ();']
+            '=>@L', '=>@R', '<(a, b):', '<((a, b), c):', '#[cfg(feature = "x")]', '#[cfg(not(feature = "x"))]', 'grammar;', 'grammar(x: u32);', 'grammar<T>;', 'use std::str::FromStr;', 'Vec<<>>', 'Comma<T>', 'Foo<"a", "b">', '"a" => "b"', 'r"[" => ID', '=> ();']
 
 EXTRA = [
     'grammar;\n#[inline] A: () = B;\n#[inline] B: () = A;\npub S: () = A;\n',
@@ -34,6 +34,11 @@ EXTRA = [
     'grammar;\npub S: &\'static str = { "a" => r"\\", "b" => r#"a"b"#, "c" => "\\"" , "d" => \'"\' .to_string().leak() };\n',
     'grammar;\npub S: () = { "a" => { let _ = \'{\'; let _ = "}"; /* } */ // }\n } };\n',
     'grammar;\npub S: () = <>;\n', 'grammar;\npub S = "a"+ "a"* "a"?;\n', 'grammar;\npub S: () = S;\n', 'grammar;\nS: () = "a";\n', 'grammar;\n', '', '\n\n',
+    'grammar;\npub E: i32 = {\n    #[cfg(feature = "x")] #[precedence(level="0")] "n" => 0,\n    #[precedence(level="1")] #[assoc(side="left")] <l:E> "+" <r:E> => l + r,\n    #[precedence(level="2")] "m" => 1,\n};\n',
+    'grammar;\npub F: (i32, i32) = { <(a, b): F> "x" => (a, b), "y" => (1, 2) };\n',
+    'grammar;\nextern { enum Tok { "a" => Tok::A } }\npub E = { "a" =>@L };\n',
+    'grammar;\nextern { type Location = usize; enum Tok { #[cfg(feature = "q")] "a" => Tok::A(<i64>), #[cfg(not(feature = "q"))] "a" => Tok::B(<i32>) } }\npub E: () = "a" => ();\n',
+    'grammar;\npub G: ((i32, i32), i32) = { <((a, b), c): G> "x" => ((a, b), c), <(a, b): H> => ((a, b), 0) };\nH: (i32, i32) = "y" => (1, 2);\n',
     'grammar;\npub S: () = !;\n', 'grammar;\npub S: () = { ! => (), "a" ! "b" => () };\n',
     'grammar;\npub S: Vec<u32> = (<N> ",")* ;\nN: u32 = r"[0-9]+" => <>.parse().unwrap();\n',
 ]
